@@ -249,6 +249,9 @@ def process_pyro_request(environ, path, parameters, start_response):
                 return [reply]
             else:
                 proxy._pyroRawWireResponse = True   # we want to access the raw response json
+                if method not in proxy._pyroAttrs and method not in proxy._pyroMethods:
+                    # only members of the remote object; never attributes of the local proxy object itself
+                    raise AttributeError("remote object '%s' has no exposed attribute or method '%s'" % (object_name, method))
                 if method in proxy._pyroAttrs:
                     # retrieve the attribute
                     assert not parameters, "attribute lookup can't have query parameters"
